@@ -82,6 +82,9 @@ def single_op_cases(kind, s, args_valid, args_other, full):
     if kind != 'comment':
         for o in lat:
             yield head + 'split %s' % o, 1, ('split', n, o)
+            # a second split: the new node must land between the receiver and the first tail
+            for o2 in lattice(min(n, int(o)) if o != M else n)[:-1]:
+                yield head + 'split %s ; split %s ; len' % (o, o2), 3, ('split2', n, o, o2)
     else:
         yield head + 'split 0', 1, ('n/a', n)
     for a in args_valid + args_other:
@@ -160,13 +163,13 @@ def gen_cases(run):
         if nontrivial:
             run.nontrivial.add(key)
     # (1) exhaustive lattice on short strings over the pool
-    full_len = 4 if thorough else 2
+    full_len = 4 if thorough else 3
     strings = [list(t) for n in range(full_len + 1) for t in itertools.product(POOL, repeat=n)]
     if not thorough:
-        # lengths 3 and 4: a seeded sample, always including all-multibyte and mixed strings
-        longer = [list(t) for n in (3, 4) for t in itertools.product(POOL, repeat=n)]
-        fixed = [[0x1F600, 0x301, 97], [0x3042, 0xE9, 0x1F600, 0x301], [97, 98, 97, 98], [0x1F600] * 4]
-        strings += fixed + rng.sample(longer, 14)
+        # length 4: a seeded sample, always including all-multibyte and mixed strings
+        longer = [list(t) for t in itertools.product(POOL, repeat=4)]
+        fixed = [[0x3042, 0xE9, 0x1F600, 0x301], [97, 98, 97, 98], [0x1F600] * 4, [0x301, 0x301, 97, 0x1F600]]
+        strings += fixed + rng.sample(longer, 12)
     for s in strings:
         for kind in KINDS + ['expanded']:
             full = thorough or len(s) <= 1
@@ -184,7 +187,7 @@ def gen_cases(run):
     run.extra['exhaustive_strings'] = len(strings)
     run.extra['exhaustive_max_len'] = full_len
     # (2) random histories on longer strings
-    nhist = 40000 if thorough else 1500
+    nhist = 40000 if thorough else 4000
     for i in range(nhist):
         kind = (KINDS + ['expanded'])[i % 4] if i % 16 == 3 else KINDS[i % 3]
         line, nops, s = random_history(rng, kind)
@@ -303,6 +306,37 @@ def check(run):
             run.extra['histories_ending_unspecified'] = unspecified
             for c, i in list(zip(cases, impl))[:: max(1, len(cases) // 8)]:
                 run.sample({'case': c, 'observation': i})
+        # thorough: the release profile too (overflow wraps instead of panicking there)
+        if run.tier == 'thorough':
+            with lib.Lock():
+                okrel, outrel, _ = lib.cargo_build(release=True)
+            if not okrel:
+                run.tie_breaks.append('release build of the harness failed: ' + outrel[-300:])
+            else:
+                sub = cases[:: 7]
+                rc, impl_r = lib.run_bin(lib.rust_bin(True), ['cdata'], sub, timeout=1500, shards=shards)
+                nrel = 0
+                if okm:
+                    rc, model_r = lib.run_bin(lib.model_bin('cdata'), ['cdata_release'], sub, timeout=1500, shards=shards)
+                    for c, a, b in zip(sub, model_r, impl_r):
+                        if a != b:
+                            nrel += 1
+                            if nrel <= 3:
+                                run.tie_breaks.append('cdata (release): model `%s` / implementation `%s` on `%s`' % (a, b, c))
+                if oks:
+                    spec_r = spec[:: 7]
+                    seen_rel = set()
+                    for c, i, sp in zip(sub, impl_r, spec_r):
+                        r = compare_spec(c, i, sp)
+                        if r is None: continue
+                        cls = classify(c, r[0], r[1]) + ' (release build)'
+                        if cls in seen_rel: continue
+                        seen_rel.add(cls)
+                        run.failing_inputs.append({'property': 'C16', 'class': cls, 'what': '%s: %s' % (cls, r[1]), 'case': case_prefix(c, r[0]),
+                                                   'implementation': i, 'specification': sp, 'profile': 'release',
+                                                   'replay': 'echo "%s" | %s cdata' % (case_prefix(c, r[0]), lib.rust_bin(True))})
+                run.extra['release_cases'] = len(sub)
+                run.extra['release_differences'] = nrel
     return run.finish(level='proof',
         rule='one case = one call applied to one (kind, data) state, or one history of up to 8 calls; distinct by the case line; '
              'non-trivial = the data has a multi-byte character, or the offset / count is at a boundary '
